@@ -598,6 +598,11 @@ def _queued_what(fr, e):
 
 
 def _entries_outside(fb, cg, callee, root, _seen=None):
+    # (root: one qualified name or a collection of them)
+    if not isinstance(root, str):
+        root = set(root)
+        if callee in root:
+            return set()
     """names of the functions through which `callee` can be entered other than from `root`: a caller is accepted when it is `root`,
     or a non-public, non-virtual member function of TcpEngine (a helper that holds part of root's body) every caller of which is
     accepted in turn; anything else — a public entry point, a lambda, a function nobody calls, another class — is an outside entry"""
@@ -607,7 +612,7 @@ def _entries_outside(fb, cg, callee, root, _seen=None):
     if not callers:
         return {"(no caller)"}
     for name, f in callers.items():
-        if name == root or name in seen:
+        if name == root or (not isinstance(root, str) and name in root) or name in seen:
             continue
         seen.add(name)
         helper = f.kind != "lambda" and "$lambda" not in name and name.startswith(TE + "::") and f.file.endswith(FILE) and f.access in ("private", "protected") and \
@@ -730,7 +735,10 @@ def r2(ctx, r):
         r.instance()
         par = f.nodes.get(f.parent.get(n["id"]))
         isswap = par is not None and par.get("k") == "mcall" and last(par.get("callee", "")) == "swap"
-        r.expect(isswap and f.name in (TE + "::process", TE + "::shutdownDrain") and la.holds(f, e, CM), f, e, "_cmds mutated",
+        takers = (TE + "::process", TE + "::shutdownDrain")
+        # (the swap may be held by a private helper — `process` -> `takeAll()` — that nothing else can call: _entries_outside)
+        intaker = f.name in takers or (isswap and f.kind != "lambda" and f.access in ("private", "protected") and not _entries_outside(fb, ctx.cg(), f.name, takers))
+        r.expect(isswap and intaker and la.holds(f, e, CM), f, e, "_cmds mutated",
                  "the command queue is modified by something other than enqueue's push_back or the whole-deque swap in process()/shutdownDrain() under _cmdMutex",
                  okdesc="%s: _cmds swapped out whole under _cmdMutex" % short(f.name))
     proc = _fn(ctx, "process")
@@ -1106,7 +1114,15 @@ def tls_leaf(n):
 TLS_AXIOM = And(Or(Not(A("tls")), A("hs"), A("open")), Not(And(A("hs"), A("open"))))
 
 
+TLS_ATOMS = ["tls", "hs", "open", "dh_ok"]
+
+
 def tls_effects(fb):
+    frames, summ, busy = {}, {}, set()
+
+    def field_written(x, fld):
+        return x.kind == "stmt" and x.node.get("k") == "bin" and x.node["op"] == "=" and x.node["lhs"].get("k") == "member" and field_of(x.node["lhs"]) == fld
+
     def eff(e):
         if e.kind != "stmt":
             return None
@@ -1124,13 +1140,34 @@ def tls_effects(fb):
             return [("havoc_all", ["hs", "open", "dh_ok"]), ("assume", TLS_AXIOM), ("assume", Or(Not(A("dh_ok")), And(A("open"), Not(A("hs")))))]
         if n.get("k") == "mcall" and n.get("callee") in (TE + "::readAvail", TE + "::closeNow"):
             return None
+        if n.get("k") in ("mcall", "call"):
+            # a helper (non-virtual TcpEngine member, _enter) that assigns tlsState / tlsMode: its effect is what its own abstraction
+            # knows at its exit (`completeHandshake(s)` that sets tlsState = Open on every path leaves the session Open)
+            fr = frames.setdefault(id(e.fn), _Frame(fb, e.fn))
+            ch = _enter(fr, e)
+            if ch is not None:
+                ws = any(field_written(x, SESS + "::tlsState") for (_, x) in _events(ch))
+                wm = any(field_written(x, SESS + "::tlsMode") for (_, x) in _events(ch))
+                if ws or wm:
+                    changed = (["hs", "open"] if ws else []) + (["tls"] if wm else [])
+                    key = id(ch.f)
+                    if key in busy:
+                        return [("havoc_all", changed)]
+                    if key not in summ:
+                        busy.add(key)
+                        try:
+                            summ[key] = PredAbs(ch.f, Vocab(TLS_ATOMS), tls_leaf, eff, init=T).describe_exit()
+                        finally:
+                            busy.discard(key)
+                    lits = [x for x in summ[key] if x.lstrip("!") in changed]
+                    return [("havoc_all", changed)] + [("assume", Not(A(x[1:])) if x.startswith("!") else A(x)) for x in lits]
         return None
     return eff
 
 
 def r5(ctx, r):
     fb = ctx.fb()
-    vocab = Vocab(["tls", "hs", "open", "dh_ok"])
+    vocab = Vocab(TLS_ATOMS)
     # the TLS tests may be spelled through a pure predicate helper (`static bool f(const Session*) { return tlsMode != None && …; }`)
     tleaf = _inl(fb, tls_leaf)
     # invariant: tlsMode != None  =>  tlsState in {Handshake, Open}
